@@ -39,7 +39,7 @@ INFO = dict(
          'socket: recorder; frames are taken from the send queue'],
   assumptions=['A2 exact real arithmetic for the deadline nanosecond conversion'],
 )
-EXPECT_COVERS = ['ctx-non-ascii-2byte', 'ctx-non-ascii-3byte', 'ctx-non-ascii-4byte', 'ctx-empty-string', 'ctx-hidden-key',
+EXPECT_COVERS = ['requests-marshalled-while-transport-opening', 'ctx-non-ascii-2byte', 'ctx-non-ascii-3byte', 'ctx-non-ascii-4byte', 'ctx-empty-string', 'ctx-hidden-key',
                  'header-type-127', 'header-negative-type', 'rdispatch-ok', 'rdispatch-nack', 'rdispatch-error', 'discard-frame']
 
 
@@ -68,6 +68,7 @@ def jobs(tier):
   for nctx in (0, 1, 2):
     js.append(dict(name='rdispatch-c%d' % nctx, op='rdispatch', nctx=nctx, cost=5))
   js.append(dict(name='rerror', op='rerror', cost=1))
+  js.append(dict(name='concurrent-during-open', op='duringopen', cost=50))
   return js
 
 
@@ -187,6 +188,53 @@ def make_body(job):
       else:
         cover('rdispatch-error')
         check('rdispatch.error-text', isinstance(out, MethodReturnMessage) and isinstance(out.error, ServerError) and str(out.error) == 'oops')
+    elif op == 'duringopen':
+      # two different requests pass the serializer sink while the transport underneath is still opening (the
+      # transport parks them until the open completes): each frame must carry what was supplied for ITS request
+      import gevent
+      from symex import net as netm
+      from . import stacks
+      e = stacks.setup()
+      import io
+      tmux_mod.BytesIO = io.BytesIO; mux_mod.BytesIO = io.BytesIO
+      import struct as _st
+      for m in (mux_mod, tmux_mod, tser_mod): m.pack = _st.pack; m.unpack = _st.unpack
+      L = fresh_real('open_latency', 0, 3, lo_strict=True)
+      script = netm.Script(plan=lambda i, p: ('never',))
+      frames = []
+      class RawPeer(netm.MuxPeer):
+        def on_frame(self, frame):
+          if frame[0] == 2: frames.append(frame)
+          else: netm.MuxPeer.on_frame(self, frame)
+      e.net.endpoint('a', 1, peer=lambda s: RawPeer(s, script), connect_delay=L)
+      from .fakes import Ep
+      transport = tmux_mod.SocketTransportSink.Builder().CreateSink({SinkProperties.Endpoint: Ep('a', 1), SinkProperties.Label: 'svc'})
+      class TS(object):
+        def SerializeThriftCall(self, msg, buf): buf.write(blobs[id(msg)])
+      ser_sink = tmux_mod.ThriftMuxMessageSerializerSink(OneProvider(transport), None, {SinkProperties.Label: 'svc', SinkProperties.ServiceInterface: None})
+      ser_sink._serializer._thrift_serializer = TS()
+      transport.Open()
+      sent = []; blobs = {}
+      def issue(i):
+        st, term, msg = new_call()
+        msg.properties['caller'] = 'caller-%d' % i
+        blobs[id(msg)] = b'PAYLOAD-%d' % i
+        sent.append(msg)
+        ser_sink.AsyncProcessRequest(st, msg, None, {})
+      for i in range(2):
+        at = fresh_real('request_at%d' % i, 0, 3)
+        gevent.spawn_later(at, issue, i)
+      gevent.sleep(8)
+      cover('requests-marshalled-while-transport-opening')
+      check('duringopen.both-frames-sent', len(frames) == 2)
+      for msg in sent:
+        tag = msg.properties.get(mux_mod.Tag.KEY)
+        mine = [f for f in frames if int.from_bytes(f[1:4], 'big') == tag]
+        check('duringopen.one-frame-per-tag', len(mine) == 1)
+        if len(mine) == 1:
+          check('duringopen.frame-carries-own-context', msg.properties['caller'].encode() in mine[0] and mine[0].endswith(blobs[id(msg)]))
+      check('no-greenlet-error', not vtime.ERRORS)
+      transport.Close()
     elif op == 'rerror':
       ser = tser_mod.MessageSerializer(None)
       for t in (MessageType.Rerr, MessageType.BAD_Rerr):
